@@ -140,8 +140,9 @@ Decode(d) ==
            rem == Bytes(d.body) - w.end
        IN IF w.err # "" THEN Err(w.err)
           ELSE IF rem # 0 /\ (rem < 4 \/ rem > 24) THEN Err("len")
-          ELSE IF \E i \in 1..Len(w.fields) : w.fields[i].kind = "invalid" THEN Err("decrypt")
+          \* (v5: the draft identification is checked on the decrypt-error path too, fix for finding F-4/v5)
           ELSE IF d.ver = 5 /\ (FirstDraft(w.fields) = 0 \/ ~IsDraftOk(w.fields[FirstDraft(w.fields)])) THEN Err("v5draft")
+          ELSE IF \E i \in 1..Len(w.fields) : w.fields[i].kind = "invalid" THEN Err("decrypt")
           ELSE [res |-> "ok", p |-> [ver |-> d.ver, hc |-> HdrNorm(d.ver, d.hc), fields |-> w.fields,
                                      mac |-> Slice(d.body, w.end, Bytes(d.body))]]
 
